@@ -5,6 +5,7 @@ the renamed state it does what it does at `pc` on the original state, renamed.
 -/
 import TeraModel.Lemmas.OptimizeSimVm
 set_option linter.unusedSectionVars false
+set_option linter.unusedSimpArgs false
 namespace Tera
 namespace OptimizeSimVm
 open Tera.Vm
@@ -318,6 +319,274 @@ theorem arm_buildList (n : Nat) :
     simp only
     nx ((Value.arr elems, (pc, pc)) :: rest) ,
       (goodStack_cons (goodSlot_own hpc _) (popN_good n _ _ _ _ hst.1 hp))
+
+
+theorem arm_equal (neg : Bool) :
+    StepRel c c' f P (stepEqual neg pc st) (stepEqual neg k (mapState f st)) := by
+  unfold stepEqual
+  simp only [mapState_stack]
+  cases hs : st.stack with
+  | nil => exact rel_panic _ _
+  | cons s1 r1 =>
+    cases r1 with
+    | nil => exact rel_panic _ _
+    | cons s2 rest =>
+      obtain ⟨b, bSpan⟩ := s1
+      obtain ⟨a, aSpan⟩ := s2
+      have hgs : GoodStack c c' f ((b, bSpan) :: (a, aSpan) :: rest) := hs ▸ hst.1
+      have hb := goodStack_head hgs
+      have ha := goodStack_head (goodStack_tail hgs)
+      have hr := goodStack_tail (goodStack_tail hgs)
+      simp only [List.map_cons, mapSlot, combine_map hR a b aSpan bSpan ha hb]
+      have hnx := rel_next_stack (c := c) (c' := c') hnext hst
+        ((Value.bool (if neg then !valueEq a b else valueEq a b), combineSpans aSpan bSpan) :: rest)
+        (goodStack_cons (combine_good a b _ aSpan bSpan ha hb) hr)
+      simpa [mapSlot] using hnx
+
+
+theorem arm_strConcat :
+    StepRel c c' f P (stepStrConcat env pc st) (stepStrConcat env k (mapState f st)) := by
+  unfold stepStrConcat
+  simp only [mapState_stack]
+  cases hs : st.stack with
+  | nil => exact rel_panic _ _
+  | cons s1 r1 =>
+    cases r1 with
+    | nil => exact rel_panic _ _
+    | cons s2 rest =>
+      obtain ⟨b, bSpan⟩ := s1
+      obtain ⟨a, aSpan⟩ := s2
+      have hgs : GoodStack c c' f ((b, bSpan) :: (a, aSpan) :: rest) := hs ▸ hst.1
+      have hb := goodStack_head hgs
+      have ha := goodStack_head (goodStack_tail hgs)
+      have hr := goodStack_tail (goodStack_tail hgs)
+      have hab := combine_good (c := c) (c' := c') (f := f) a b
+      simp only [List.map_cons, mapSlot, combine_map hR a b aSpan bSpan ha hb]
+      refine ⟨hnext, ?_, goodStack_cons (hab Value.undef aSpan bSpan ha hb) hr, hst.2⟩
+      simp [mapState, mapSlot]
+
+theorem arm_cmp (op : CmpOp) :
+    StepRel c c' f P (stepCmp env vm c op pc st) (stepCmp env vm c' op k (mapState f st)) := by
+  unfold stepCmp
+  simp only [mapState_stack]
+  cases hs : st.stack with
+  | nil => exact rel_panic _ _
+  | cons s1 r1 =>
+    cases r1 with
+    | nil => exact rel_panic _ _
+    | cons s2 rest =>
+      obtain ⟨b, bSpan⟩ := s1
+      obtain ⟨a, aSpan⟩ := s2
+      have hgs : GoodStack c c' f ((b, bSpan) :: (a, aSpan) :: rest) := hs ▸ hst.1
+      have hb := goodStack_head hgs
+      have ha := goodStack_head (goodStack_tail hgs)
+      have hr := goodStack_tail (goodStack_tail hgs)
+      have hab := combine_good (c := c) (c' := c') (f := f) a b
+      simp only [List.map_cons, mapSlot, combine_map hR a b aSpan bSpan ha hb]
+      split
+      · rename_i o _
+        have hnx := rel_next_stack (c := c) (c' := c') hnext hst
+          ((Value.bool (cmpTest op o), combineSpans aSpan bSpan) :: rest)
+          (goodStack_cons (hab (Value.undef) aSpan bSpan ha hb) hr)
+        simpa [mapSlot] using hnx
+      · exact rel_renderingError hR env vm a _ _ (hab a aSpan bSpan ha hb)
+
+theorem arm_plus :
+    StepRel c c' f P (stepPlus env vm c pc st) (stepPlus env vm c' k (mapState f st)) := by
+  unfold stepPlus
+  simp only [mapState_stack]
+  cases hs : st.stack with
+  | nil => exact rel_panic _ _
+  | cons s1 r1 =>
+    cases r1 with
+    | nil => exact rel_panic _ _
+    | cons s2 rest =>
+      obtain ⟨b, bSpan⟩ := s1
+      obtain ⟨a, aSpan⟩ := s2
+      have hgs : GoodStack c c' f ((b, bSpan) :: (a, aSpan) :: rest) := hs ▸ hst.1
+      have hb := goodStack_head hgs
+      have ha := goodStack_head (goodStack_tail hgs)
+      have hr := goodStack_tail (goodStack_tail hgs)
+      have hab := combine_good (c := c) (c' := c') (f := f) a b
+      simp only [List.map_cons, mapSlot, combine_map hR a b aSpan bSpan ha hb]
+      split
+      · split
+        · rename_i v _
+          have hnx := rel_next_stack (c := c) (c' := c') hnext hst
+            ((v, combineSpans aSpan bSpan) :: rest)
+            (goodStack_cons (hab v aSpan bSpan ha hb) hr)
+          simpa [mapSlot] using hnx
+        · exact rel_renderingError hR env vm a _ _ (hab a aSpan bSpan ha hb)
+      · exact rel_renderingError hR env vm a _ _ (hab a aSpan bSpan ha hb)
+
+theorem arm_math (op : MathOp) :
+    StepRel c c' f P (stepMath env vm c op pc st) (stepMath env vm c' op k (mapState f st)) := by
+  unfold stepMath
+  simp only [mapState_stack]
+  cases hs : st.stack with
+  | nil => exact rel_panic _ _
+  | cons s1 r1 =>
+    cases r1 with
+    | nil => exact rel_panic _ _
+    | cons s2 rest =>
+      obtain ⟨b, bSpan⟩ := s1
+      obtain ⟨a, aSpan⟩ := s2
+      have hgs : GoodStack c c' f ((b, bSpan) :: (a, aSpan) :: rest) := hs ▸ hst.1
+      have hb := goodStack_head hgs
+      have ha := goodStack_head (goodStack_tail hgs)
+      have hr := goodStack_tail (goodStack_tail hgs)
+      have hab := combine_good (c := c) (c' := c') (f := f) a b
+      simp only [List.map_cons, mapSlot, combine_map hR a b aSpan bSpan ha hb]
+      split
+      · exact rel_renderingError hR env vm a _ _ ha
+      · split
+        · exact rel_renderingError hR env vm b _ _ hb
+        · split
+          · rename_i v _
+            have hnx := rel_next_stack (c := c) (c' := c') hnext hst
+              ((v, combineSpans aSpan bSpan) :: rest)
+              (goodStack_cons (hab v aSpan bSpan ha hb) hr)
+            simpa [mapSlot] using hnx
+          · exact rel_renderingError hR env vm b _ _ hb
+          · exact rel_renderingError hR env vm a _ _ (hab a aSpan bSpan ha hb)
+
+theorem arm_in :
+    StepRel c c' f P (stepIn env vm c pc st) (stepIn env vm c' k (mapState f st)) := by
+  unfold stepIn
+  simp only [mapState_stack]
+  cases hs : st.stack with
+  | nil => exact rel_panic _ _
+  | cons s1 r1 =>
+    cases r1 with
+    | nil => exact rel_panic _ _
+    | cons s2 rest =>
+      obtain ⟨b, bSpan⟩ := s1
+      obtain ⟨a, aSpan⟩ := s2
+      have hgs : GoodStack c c' f ((b, bSpan) :: (a, aSpan) :: rest) := hs ▸ hst.1
+      have hb := goodStack_head hgs
+      have ha := goodStack_head (goodStack_tail hgs)
+      have hr := goodStack_tail (goodStack_tail hgs)
+      have hab := combine_good (c := c) (c' := c') (f := f) a b
+      simp only [List.map_cons, mapSlot, combine_map hR a b aSpan bSpan ha hb]
+      split
+      · rename_i r _
+        nx ((Value.bool r, (pc, pc)) :: rest) , (goodStack_cons (goodSlot_own hpc _) hr)
+      · exact rel_renderingError hR env vm b _ _ hb
+
+theorem arm_not :
+    StepRel c c' f P (stepNot pc st) (stepNot k (mapState f st)) := by
+  unfold stepNot
+  simp only [mapState_stack]
+  cases hs : st.stack with
+  | nil => exact rel_panic _ _
+  | cons s1 rest =>
+    obtain ⟨a, aSpan⟩ := s1
+    have hgs : GoodStack c c' f ((a, aSpan) :: rest) := hs ▸ hst.1
+    have ha := goodStack_head hgs
+    have hr := goodStack_tail hgs
+    simp only [List.map_cons, mapSlot]
+    have hnx := rel_next_stack (c := c) (c' := c') hnext hst
+      ((Value.bool (!a.isTruthy), aSpan) :: rest) (goodStack_cons (goodSlot_val _ ha) hr)
+    simpa [mapSlot] using hnx
+
+theorem arm_negative :
+    StepRel c c' f P (stepNegative env vm c pc st) (stepNegative env vm c' k (mapState f st)) := by
+  unfold stepNegative
+  simp only [mapState_stack]
+  cases hs : st.stack with
+  | nil => exact rel_panic _ _
+  | cons s1 rest =>
+    obtain ⟨a, aSpan⟩ := s1
+    have hgs : GoodStack c c' f ((a, aSpan) :: rest) := hs ▸ hst.1
+    have ha := goodStack_head hgs
+    have hr := goodStack_tail hgs
+    simp only [List.map_cons, mapSlot]
+    split
+    · rename_i v _
+      have hnx := rel_next_stack (c := c) (c' := c') hnext hst
+        ((v, aSpan) :: rest) (goodStack_cons (goodSlot_val _ ha) hr)
+      simpa [mapSlot] using hnx
+    · exact rel_renderingError hR env vm a _ _ ha
+
+theorem arm_popJumpIfFalse (t : Nat) (ht : P t (f t)) :
+    StepRel c c' f P (stepPopJumpIfFalse t pc st) (stepPopJumpIfFalse (f t) k (mapState f st)) := by
+  unfold stepPopJumpIfFalse
+  simp only [mapState_stack]
+  cases hs : st.stack with
+  | nil => exact rel_panic _ _
+  | cons s1 rest =>
+    obtain ⟨a, aSpan⟩ := s1
+    have hgs : GoodStack c c' f ((a, aSpan) :: rest) := hs ▸ hst.1
+    have ha := goodStack_head hgs
+    have hr := goodStack_tail hgs
+    simp only [List.map_cons, mapSlot]
+    have hg : GoodState c c' f P { st with stack := rest } := ⟨hr, hst.2⟩
+    split
+    · exact ⟨ht, by simp [mapState], hg⟩
+    · exact ⟨hnext, by simp [mapState], hg⟩
+
+theorem arm_jumpOrPop (w : Bool) (t : Nat) (ht : P t (f t)) :
+    StepRel c c' f P (stepJumpOrPop w t pc st) (stepJumpOrPop w (f t) k (mapState f st)) := by
+  unfold stepJumpOrPop
+  simp only [mapState_stack]
+  cases hs : st.stack with
+  | nil => exact rel_panic _ _
+  | cons s1 rest =>
+    obtain ⟨a, aSpan⟩ := s1
+    have hgs : GoodStack c c' f ((a, aSpan) :: rest) := hs ▸ hst.1
+    have ha := goodStack_head hgs
+    have hr := goodStack_tail hgs
+    simp only [List.map_cons, mapSlot]
+    have hg : GoodState c c' f P { st with stack := rest } := ⟨hr, hst.2⟩
+    generalize (if w then a.isTruthy else !a.isTruthy) = cond
+    cases cond
+    · simp only [Bool.false_eq_true, ↓reduceIte]
+      exact ⟨hnext, by simp [mapState], hg⟩
+    · simp only [↓reduceIte]
+      exact ⟨ht, rfl, hst⟩
+
+theorem arm_jump (t : Nat) (ht : P t (f t)) :
+    StepRel c c' f P (.next t st) (.next (f t) (mapState f st)) := ⟨ht, rfl, hst⟩
+
+theorem arm_capture :
+    StepRel c c' f P (.next (pc + 1) { st with captures := [] :: st.captures })
+      (.next (k + 1) { (mapState f st) with captures := [] :: (mapState f st).captures }) :=
+  ⟨hnext, rfl, hst⟩
+
+theorem arm_endCapture :
+    StepRel c c' f P (stepEndCapture pc st) (stepEndCapture k (mapState f st)) := by
+  unfold stepEndCapture
+  simp only [mapState_captures]
+  cases st.captures with
+  | nil => exact rel_panic _ _
+  | cons buf restCaps =>
+    refine ⟨hnext, ?_, goodStack_cons (goodSlot_own hpc _) hst.1, hst.2⟩
+    simp [mapState, mapSlot, mapSpan, hk]
+
+theorem arm_appendToList :
+    StepRel c c' f P (stepAppendToList pc st) (stepAppendToList k (mapState f st)) := by
+  unfold stepAppendToList
+  simp only [mapState_stack]
+  cases hs : st.stack with
+  | nil => exact rel_panic _ _
+  | cons s1 r1 =>
+    cases r1 with
+    | nil => exact rel_panic _ _
+    | cons s2 rest =>
+      obtain ⟨b, bSpan⟩ := s1
+      obtain ⟨a, aSpan⟩ := s2
+      have hgs : GoodStack c c' f ((b, bSpan) :: (a, aSpan) :: rest) := hs ▸ hst.1
+      have hb := goodStack_head hgs
+      have ha := goodStack_head (goodStack_tail hgs)
+      have hr := goodStack_tail (goodStack_tail hgs)
+      have hab := combine_good (c := c) (c' := c') (f := f) a b
+      simp only [List.map_cons, mapSlot, combine_map hR a b aSpan bSpan ha hb]
+      split
+      · rename_i xs
+        have hnx := rel_next_stack (c := c) (c' := c') hnext hst
+          ((Value.arr (xs ++ [b]), aSpan) :: rest) (goodStack_cons (goodSlot_val _ ha) hr)
+        simpa [mapSlot] using hnx
+      · exact rel_panic _ _
 
 end arms
 
